@@ -404,4 +404,14 @@ Proof.
     repeat split; try assumption; try reflexivity. intros; contradiction.
 Qed.
 
+(* the threshold branch: a vanishing restriction gives a zero column and R = 0 *)
+Lemma T_zero_branch na aggs B tol a :
+  good_sqrt (gsumsq aggs B a) -> gsumsq aggs B a = 0 -> a < na ->
+  nth a (snd (fitc na aggs B tol)) 0 = 0 /\ forall i, denCsr (fst (fitc na aggs B tol)) i a = 0.
+Proof.
+  intros Hg Hz Ha. destruct (branch_zero tol _ Hg Hz) as [E1 E2]. split.
+  - rewrite fit_R_nth by exact Ha. exact E2.
+  - intros i. rewrite den_T_closed, E1. destruct (_ && _); [ring|reflexivity].
+Qed.
+
 End CandProofs.
